@@ -405,6 +405,7 @@ impl World {
             Ev::WriteExactProbe { suite, kind, bytes, buflen } => self.ev_write_exact_probe(*suite, *kind, bytes, *buflen, cov),
             Ev::PskProbe { psk, psk_id } => self.ev_psk_probe(psk, psk_id, cov),
             Ev::RawOpen { r, ct, aad, tag } => self.ev_raw_open(*r, ct, aad, tag.as_ref().map(|t| &t.0[..]), cov),
+            Ev::On { inner, .. } => self.apply(inner, cov),
         }
     }
 }
@@ -424,6 +425,9 @@ pub fn len_class(n: usize) -> &'static str {
 /// Executes a case on a fresh world. Returns the first violation, if any.
 pub fn execute(case: &Case, cov: &mut Cov) -> Option<Violation> {
     let p = P::parse(&case.property).expect("unknown property in case");
+    if p == P::C18 {
+        return crate::c18::execute_c18(case, cov);
+    }
     let mut w = World::new(p);
     for (i, ev) in case.events.iter().enumerate() {
         w.ev_idx = i;
